@@ -97,6 +97,15 @@ CHECKS = {
             "on the shape only, so uniformity is checked by replaying each state in all 16 ways of supplying the functions and "
             "comparing outcome and the multiset of calls received; an override must not leak into a later program.",
             "Trusted: TLC, the recording host functions of the harness.", "5/C14"),
+    "C05": ("TLA+ state machine CelApi (NewEnv / Program / Evaluate; Outcome is a function of declarations, expression and bindings) "
+            "model-checked by TLC (action property HistoryFree over all histories to depth 4); TLC-generated histories (exhaustive short, "
+            "simulated long, pairwise binding sequences) replayed one per forked process; random histories validated by Trace_C05",
+            "Every history of API calls up to depth 4 (2 runner classes x 4 declaration kinds x 6 expressions x 7 bindings) is a "
+            "state of the model and HistoryFree is checked on each step; behaviours of that machine are replayed into the library, each "
+            "in a process forked from a parent that only imported the library, and every Evaluate is compared with the specification's "
+            "Outcome and with the same evaluation performed alone (cross-checked against fresh interpreters); the caller's bindings are "
+            "compared before and after; recorded random histories are accepted or rejected by the same state machine in TLC.",
+            "Trusted: TLC, os.fork isolation. fork() is slow in this sandbox, so the number of replayed histories is budgeted.", "5/C05"),
 }
 NOT_YET = "check not built yet in this phase (planned per DESIGN.md section 5)"
 
